@@ -399,6 +399,15 @@ def run(ctx: Ctx) -> None:
     b = const_int(ctx, ot.module, ov) if ov is not None else 1
     ctx.check(a is not None and a == b, "RF-TABLE", "codec-version-agrees", ot, ob, ok=f"seal and open use envelope version {a}", bad=f"seal writes version {a}, open expects {b}")
 
+    # ================================================================ identity binding of the AAD the codec is sealed under
+    # Every seal/open site of the session token uses _compute_aad (checked above: token-opened-under-current-identity,
+    # mint-binds-current-identity), so "only under the caller identity that opened it" needs that encoding to be
+    # injective on identities: the anonymous constant must not be producible by an authenticated (domain, principal),
+    # both components bound, losslessly, delimiter-framed.  Same byte-string algebra as C12, keyed as C25 instances.
+    from .c12 import check_aad_function
+
+    check_aad_function(ctx, AAD, "session")
+
     # ================================================================ mint (_open_session)
     os_f = ctx.fn(OPEN_SESSION)
     sc = one(calls_to(ctx, os_f, SEAL_T), "session-token seal", os_f)
